@@ -104,6 +104,8 @@ def gen(rng, tier):
     # 100 Continue, the body and the complete final response still go through (x = such a client, y<k> = its handler
     # answers "get the body first")
     cases += ["srv 2 x y0", "srv 2 x r y0", "srv 1 x r y0 c", "srv 2 c x r l0 y1", "srv 3 x x r y1 y0"]
+    # an idle connection that sends "OPTIONS *" pings after the revocation: it is closed like every other connection
+    cases += ["srv 2 c l0 r e0:optstar c", "srv 1 c l0 e0:optstar c c", "srv 2 c c l0 l1 r e1:optstar e0:optstar"]
     # stopping must not wait for the logger: a global logger whose queue is full and undrained is installed first
     cases += ["acc 2 c L r", "acc 1 L c c r c", "acc 3 L r"]
     if tier == "thorough":
